@@ -2,6 +2,7 @@
    Only statements, [exact] and [Print Assumptions] live here. *)
 From Coq Require Import List ZArith Bool.
 From SR Require Import Base.CaseLib Base.NumOps Model.Turn Model.Sim Model.SimProtocol Proofs.SimProofs.
+From SR Require Import Model.SimSkeleton Model.SimSkeletonInterp Gen.RunSkeleton Proofs.RunSkeletonProofs Proofs.RunSkeletonInterpProofs.
 Import ListNotations.
 
 (* For every configuration, every content script, every decision sequence of the script
@@ -31,3 +32,17 @@ Theorem C03_nonvacuous :
   | _ => false
   end = true.
 Proof. exact demo_cfg_runs. Qed.
+
+(* The run loop of the model IS the run loop of the source.  `go2coq RunSkeleton` translates every function of
+   pkg/simulation/run.go, action.go and death.go into a first-order table of its steps in source order (emits,
+   modifier ticks, death checks, queue drains, exit checks, guards as source text, next states), Gen/RunSkeleton.v,
+   regenerated on every run.  (1) That table equals the pinned table Model/SimSkeleton.v, and the integer constants
+   it names have the pinned values; (2) the interpretation of the generated state functions beginTurn, phase1,
+   action, phase2, endTurn over the model's own state and functions, chained as Run chains them, is Sim.one_turn
+   for every configuration, fuel and state (equal outcomes; for an error outcome equal traces); (3) phase2 and
+   endTurn chained are Sim.phase2; (4) engage is the queue drain at the start of Sim.start.  So the order of the
+   protocol events of a turn in the model is the order in which the Go state functions produce them, for all
+   inputs, and an edit of that order breaks this theorem. *)
+Theorem C03_run_skeleton_is_the_source : run_skeleton_tie.
+Proof. exact run_skeleton_is_the_source. Qed.
+Print Assumptions C03_run_skeleton_is_the_source.
